@@ -314,14 +314,19 @@ def rule_r5(ctx: Ctx) -> None:
     ctx.rule("C14.R5", "the codec and the type model hold no memo keyed by type equality (two revisions of an appendable type with the same extent compare equal and would share the entry)", min_instances=1)
     found = []
     mods = ["_serdes"] + sorted(m.name[len("pydsdl."):] for m in ctx.repo.modules.values() if m.name.startswith("pydsdl._serializable."))
-    for short in mods:
-        found.extend(memoised_functions(ctx, short))
+    # every function of the codec works on schema objects: any memo there is keyed by them
+    found.extend(memoised_functions(ctx, "_serdes"))
     ctx.count(len(mods))
     from . import approx_keys
 
     ks, scanned = approx_keys.sites(ctx, ["_serdes"])
     ctx.count(scanned)
     found.extend("%s: %s (%s)" % (k["function"], k["construct"], k["kind"]) for k in ks)
+    # in the type model, the memos whose key is (or contains) a type / a length set - by the parameters' types; a memo keyed
+    # by a plain string or number (e.g. a verdict about a name) identifies nothing by approximate equality
+    ks2, scanned2 = approx_keys.sites(ctx, ["_serializable"])
+    ctx.count(scanned2)
+    found.extend("%s: %s (%s)" % (k["function"], k["construct"], k["kind"]) for k in ks2 if k["kind"].startswith("memo") or k["kind"].startswith("module-level memo"))
     found = sorted(set(found))
     ctx.check(not found, "_serdes, _serializable.*", "no equality-keyed memo (%d modules)" % len(mods), "what is (de)serialized is decided by the schema object given, not by an equal-comparing one seen earlier", "pydsdl/_serdes.py", found)
 
